@@ -2,7 +2,9 @@ package c04
 
 import (
 	"fmt"
+	"os"
 	"regexp"
+	"runtime"
 	"sort"
 	"strconv"
 	"strings"
@@ -656,6 +658,57 @@ func unpackLenClass(fmtS, data string) bool {
 
 func hugeCountName(n string) bool { return n == "2^31" || n == "maxint" || n == "2^53" }
 
+// intName gives the integer a pool name denotes when used as an integer argument.
+func intName(n string) (int64, bool) {
+	switch n {
+	case "0", "-0.0":
+		return 0, true
+	case "1", "true-1":
+		return 1, true
+	case "-1":
+		return -1, true
+	case "2":
+		return 2, true
+	case "3":
+		return 3, true
+	case "-3":
+		return -3, true
+	case "4":
+		return 4, true
+	case "1025":
+		return 1025, true
+	case "1024":
+		return 1024, true
+	case "2^31":
+		return 1 << 31, true
+	case "2^53":
+		return 1 << 53, true
+	case "maxint":
+		return 1<<63 - 1, true
+	case "minint":
+		return -1 << 63, true
+	case "s:10":
+		return 10, true
+	}
+	return 0, false
+}
+
+// subjectLen gives bounds of the length of the string a pool value becomes
+// when used as a string argument (numbers are converted).
+func subjectLen(n string) (lo, hi int, ok bool) {
+	p, found := poolIndex[n]
+	if !found {
+		return 0, 0, false
+	}
+	if p.isStr {
+		return len(p.str), len(p.str), true
+	}
+	if isNumberName(n) {
+		return 1, 24, true
+	}
+	return 0, 0, false
+}
+
 // excludedByFinding returns the id of an open finding whose input class
 // contains this call.
 func excludedByFinding(known func(string) bool, path string, args []string) string {
@@ -665,6 +718,18 @@ func excludedByFinding(known func(string) bool, path string, args []string) stri
 		if okf && okd && f.isStr && d.isStr && unpackLenClass(f.str, d.str) {
 			return kfUnpackLen
 		}
+	}
+	if path == "string.match" && len(args) >= 3 && known(kfMatchInit) {
+		// init beyond the end of the subject
+		lo, _, okS := subjectLen(args[0])
+		_, _, okP := subjectLen(args[1])
+		if init, okI := intName(args[2]); okS && okP && okI && init > int64(lo)+1 {
+			return kfMatchInit
+		}
+	}
+	if path == "<file-mt>.__index.setvbuf" && len(args) >= 3 && known(kfSetvbuf) && args[0] == "file" &&
+		(args[1] == "rfmt:full" || args[1] == "rfmt:line") && hugeCountName(args[2]) {
+		return kfSetvbuf
 	}
 	if path == "<file-mt>.__index.read" && len(args) >= 2 && known(kfReadHuge) && (args[0] == "file") {
 		for _, a := range args[1:] {
@@ -835,6 +900,15 @@ func workLib(w *worker) {
 		})
 		ls.s.Close()
 		w.flush(false)
+		// unfinished coroutines of the pool stay behind as blocked goroutines:
+		// hand the rest to a fresh process before this one grows large
+		var ms runtime.MemStats
+		runtime.ReadMemStats(&ms)
+		if ms.Sys > 1500<<20 && fi+1 < len(paths) {
+			w.rec.Finish()
+			writeResult(w.job, Result{NT: w.ntKeys(), Partial: os.Getenv("VERIF_OUT"), NextFn: fi + 1})
+			os.Exit(0)
+		}
 	}
 }
 
@@ -866,17 +940,23 @@ func execLibCase(w *worker, c Case) Outcome {
 }
 
 // superviseLib runs the library sweep in worker children, restarting after a
-// case that killed or hung the worker.
+// case that killed or hung the worker. A death is only a violation if it can
+// be reproduced in a fresh child (alone, or with the calls that preceded it in
+// the same runtime): the long-lived worker itself accumulates garbage.
 func superviseLib(rec *ev.Recorder, known map[string]bool) {
 	arity := rec.Pick(2, 3)
 	fromFn, fromT := 0, 0
 	deaths := 0
 	for deaths < 25 {
-		x := runChild(Job{Mode: "lib", Arity: arity, FromFn: fromFn, FromT: fromT, Known: known, HangS: 60}, 60*time.Minute)
+		x := runChild(Job{Mode: "lib", Arity: arity, FromFn: fromFn, FromT: fromT, Known: known, HangS: 60}, 90*time.Minute)
 		mergePartial(rec, x.res)
 		fmt.Printf("lib worker: %.1fs\n", x.wall.Seconds())
 		if x.res != nil && x.res.Done {
 			return
+		}
+		if x.res != nil && x.res.NextFn > 0 && x.fatal == "" && !x.timeout && !x.hang {
+			fromFn, fromT = x.res.NextFn, 0
+			continue
 		}
 		deaths++
 		if x.inflight == nil {
@@ -893,7 +973,17 @@ func superviseLib(rec *ev.Recorder, known map[string]bool) {
 			rec.Discard("child-timeout")
 			fmt.Printf("lib: pcall(%s, %s) did not finish in time (inconclusive)\n", c.Fn, strings.Join(c.Args, ", "))
 		case x.fatal != "":
-			rec.Violation("lib", c, fmt.Sprintf("child process died in pcall(%s, %s): %s", c.Fn, strings.Join(c.Args, ", "), x.fatal))
+			r := runCaseChild(c, known, false, 4*time.Minute)
+			if r.msg == "" && !r.inconclusive {
+				c.UpTo, c.Arity = x.inflight.T+1, arity
+				r = runCaseChild(c, known, false, 20*time.Minute)
+			}
+			if r.msg != "" {
+				rec.Violation("lib", c, fmt.Sprintf("pcall(%s, %s): %s", c.Fn, strings.Join(c.Args, ", "), r.msg))
+			} else {
+				rec.Discard("worker-death-not-reproduced-in-a-fresh-child")
+				fmt.Printf("lib: worker died in pcall(%s, %s) but the case is fine in a fresh child (worker's own memory): %s\n", c.Fn, strings.Join(c.Args, ", "), clip(x.fatal, 200))
+			}
 		}
 		fromFn, fromT = x.inflight.Fn, x.inflight.T+1
 	}
